@@ -501,3 +501,56 @@ def run(ck, prog):
     ck.floor("E2c-pairing", 3)
     ck.floor("E2c-polarity", 1)
     ck.floor("E2b-guarded", 2)
+
+
+def builders(ck, prog):
+    """KFold's builder setters change their own field only: `with_n_splits(5).with_shuffle(false)` must still have 5 folds"""
+    rule = "E2-provenance"
+    adt = prog.adts.get("model_selection::kfold::KFold")
+    fields = [f["name"] for f in adt["variants"][0]["fields"]] if adt else []
+    for m in ("with_n_splits", "with_shuffle"):
+        target = m[len("with_"):]
+        inst = f"KFold::{m} sets `{target}` and keeps every other field"
+        b = prog.bodies.get(f"model_selection::kfold::KFold::{m}")
+        if not b or target not in fields:
+            ck.violation(rule, inst, f"KFold::{m}", "", expected="anchor exists", found="anchor vanished")
+            continue
+        res = Resolver(b)
+        ret = res.local(0)
+        problems = []
+        if ret[0] == "arg" and ret[1] == 1:
+            # in-place form: only the target field of `self` is stored to, with the argument
+            stores = [d for d in b.partial_defs.get(1, []) if d.kind == "assign"]
+            names = []
+            for d in stores:
+                fs = [e["n"] for e in d.data["p"]["pr"] if isinstance(e, dict) and "f" in e]
+                names.append(fs[0] if fs else "?")
+                v = res.rvalue(d.data["r"], 0, ())
+                if fs and fs[0] == target and not (v[0] == "arg" and v[1] == 2):
+                    problems.append(f"`{target}` is set to `{render(v)[:40]}`, not to the argument")
+            if sorted(set(names)) != [target]:
+                problems.append(f"stores to fields {sorted(set(names))}")
+        elif ret[0] == "agg" and ret[1].endswith("KFold::KFold"):
+            vals = dict(zip(ret[3], ret[2]))
+            for f in fields:
+                v = vals.get(f)
+                if f == target:
+                    if not (v and v[0] == "arg" and v[1] == 2):
+                        problems.append(f"`{f}` is set to `{render(v)[:40] if v else None}`, not to the argument")
+                elif not (v and v[0] == "field" and v[2] == f and v[1][0] == "arg" and v[1][1] == 1):
+                    problems.append(f"`{f}` is taken from `{render(v)[:50] if v else None}` instead of self.{f}")
+        else:
+            problems.append(f"returns `{render(ret)[:80]}`")
+        if problems:
+            ck.violation(rule, inst, b.path, f"{b.loc[0]}:{b.loc[1]}", expected="only the named field changes", found="; ".join(problems))
+        else:
+            ck.ok(rule, inst, b.path, f"{b.loc[0]}:{b.loc[1]}", render(ret)[:80])
+
+
+_run_c16 = run
+
+
+def run(ck, prog):
+    _run_c16(ck, prog)
+    builders(ck, prog)
+    ck.floor("E2-provenance", 2)
